@@ -251,13 +251,27 @@ func c05OnCommit(w *World, ps *pairState, ci *fakepg.CommitInfo) {
 						cur = ch.num
 					}
 				}
+				// (the referenced pair may also have reached n only after the
+				// call began and before the dependent read the positions: what
+				// counts is a position >= n followed, still within the call,
+				// by one below n)
 				lo = cur
+				high := cur >= n
+				fell := false
 				for _, ch := range o.curHist {
-					if ch.seq > ps.callStartSeq && ch.num < lo {
-						lo = ch.num
+					if ch.seq <= ps.callStartSeq {
+						continue
+					}
+					if ch.num >= n {
+						high = true
+					} else if high {
+						fell = true
+						if ch.num < lo || lo >= n {
+							lo = ch.num
+						}
 					}
 				}
-				if lo < n && cur >= n {
+				if fell {
 					w.stat("probe_lookup_during_referenced_unwind", 1)
 					w.violate("lookup-during-referenced-unwind", "pair %s recorded block %d in a step during which the integration it references (%s) unwound to position %d: positions are read in the step's first transaction and the lookups run in the second, so the lookups saw a referenced table without the unwound blocks", ps.key, n, o.key, lo)
 					// rows of this step may be missing for that reason: the row
